@@ -16,7 +16,7 @@ RULE = ("Trees of memory maps (depth <= 4) generated top-down for data widths an
         "a resource behind a window with non-zero base and non-zero local offset. Distinct = "
         "canonical JSON.")
 BUDGET = {"quick": (16, 500), "thorough": (16, 12000)}
-ESSENTIAL = ["depth>=2", "depth>=3", "dense", "sparse", "anonymous", "named", "hole_decoded",
+ESSENTIAL = ["multipart_window_name", "depth>=2", "depth>=3", "dense", "sparse", "anonymous", "named", "hole_decoded",
              "nonzero_base_and_offset", "dense_nonzero_offset", "foreign_resource_keyerror"]
 ASSUMPTIONS = [
     "dense windows only over leaf maps (dense over non-leaf and dense-then-sparse stacks are outside the stated domain; the code asserts there)",
@@ -132,7 +132,8 @@ def _populate(node, children, aw, counter, stats):
             _, size, mode, k = it
             r = node.setdefault("_objs", {}).setdefault(counter[0], None) or Res()
             node["_objs"][counter[0]] = r
-            name = (f"r{counter[0]}",)
+            n = counter[0]
+            name = [(f"r{n}",), (f"r{n}", n % 4), (f"r{n}", "f", "g")][n % 3]
             kw = {}
             if mode == "align":
                 mm.align_to(k)
@@ -143,7 +144,9 @@ def _populate(node, children, aw, counter, stats):
         else:
             _, cnode, kind, named, mode, k = it
             c = children[ci]; ci += 1
-            name = (f"w{counter[0]}",) if named else None
+            n = counter[0]
+            name = [(f"w{n}",), (f"w{n}", "bus"), (f"w{n}", n % 3, "x")][n % 3] if named else None
+            stats.label("multipart_window_name", named and n % 3 != 0)
             kw = {}
             if kind != "same":
                 kw["sparse"] = kind == "sparse"
